@@ -33,7 +33,7 @@ class Obl:
 def _run_worker(harness: str, func: str, params: dict, cond_timeout: float, path_timeout: float) -> dict:
     env = dict(os.environ)
     env["XH_PARAMS"] = json.dumps(params)
-    env["PYTHONPATH"] = VERIF
+    env["PYTHONPATH"] = VERIF + (":" + os.environ["VERIF_REPO"] if os.environ.get("VERIF_REPO") else "")
     env.pop("PYTHONHASHSEED", None)
     wall = cond_timeout * 1.6 + 90
     t0 = time.time()
@@ -59,7 +59,7 @@ def replay(harness: str, params: dict, args: dict, func: str = "check", timeout:
     """Re-executes the property on concrete arguments in the repository's own interpreter (no CrossHair)."""
     env = dict(os.environ)
     env["XH_PARAMS"] = json.dumps(params)
-    env["PYTHONPATH"] = VERIF + ":/repo"
+    env["PYTHONPATH"] = VERIF + ":" + os.environ.get("VERIF_REPO", "/repo")
     try:
         p = subprocess.run(
             ["timeout", "-k", "5", str(timeout), PY_PLAIN, REPLAYER, os.path.join(VERIF, "harness", harness), func, json.dumps(args)],
